@@ -1,5 +1,8 @@
 import Dtn7.Lemmas.StoreCovers
 
+set_option linter.unusedSimpArgs false
+set_option linter.unusedSectionVars false
+
 /-!
 C08: fragments of one bundle — collected once each, complete exactly when covering, and the two
 concurrent pushes.
